@@ -229,6 +229,21 @@ pub fn nquads_text(d: &Dataset) -> String {
 /// Build a fresh database holding exactly `d` through the given writer. Empty named
 /// graphs are created through `DatasetIndex::create_graph` in every route (no update form
 /// creates an empty graph).
+/// Add quads through `add_quad` (an API that does not invalidate cached statistics).
+pub fn add_direct(db: &mut SparqlDatabase, quads: &[LQuad]) {
+    for (a, b, c, g) in quads {
+        let (s, p, o, gid) = {
+            let mut dict = db.dictionary.write().unwrap();
+            let gid = match g {
+                G::Default => GraphId::Default,
+                G::Named(n) => GraphId::Named(dict.encode(n)),
+            };
+            (dict.encode(a), dict.encode(b), dict.encode(c), gid)
+        };
+        db.add_quad(Quad { subject: s, predicate: p, object: o, graph: gid });
+    }
+}
+
 pub fn load(d: &Dataset, route: Route) -> Result<SparqlDatabase, String> {
     let mut db = SparqlDatabase::new();
     match route {
